@@ -1,4 +1,6 @@
 import OpcuaVerif.Lemmas.EncFaultRec
+import OpcuaVerif.Lemmas.EncSchemaFault
+import OpcuaVerif.Generated.Schemas
 
 /-!
 C02 — Decoding arbitrary bytes never panics, overflows the stack or over-allocates.
@@ -111,5 +113,21 @@ example : decDV Opts.default 65535 true 33 0 (nestDV 12 [0]) = .err :=
   nested_data_value_rejected Opts.default 65535 12 33 [0] (by decide) (by decide)
 /-- … while 3 levels decode -/
 example : (decDV Opts.default 65535 true 33 0 (nestDV 3 [0])).val?.isSome = true := by decide
+
+/-! ### generated service structures (schemas regenerated from the source by translator T1) -/
+
+/-- **Totality for every generated request / response structure**: decoding ANY bytes as ANY
+schema — in particular each of the 283 in `Gen.schemas` — returns a value or an error: no panic, no
+stack exhaustion (embedded Variants are the only recursion), no allocation above the limits
+(`read_array` checks `max_array_length` before `Vec::with_capacity`). -/
+theorem dec_total_schema (o : Opts) (cap : Nat) (hc : CapOK o cap) (fuel : Nat) (hf : stackBound o ≤ fuel)
+    (t : Ty) (b : Bytes) : (decS o cap fuel t 0 b).isFault = none := by
+  have h := decS_noFault o cap fuel hc (by unfold stackBound at hf; omega) t 0 b
+  cases hr : decS o cap fuel t 0 b with
+  | fault k => rw [hr] at h; exact h.elim
+  | ok v r => rfl
+  | err => rfl
+
+example : (Gen.schemas.lookup "ReadRequest").isSome = true := by decide +kernel
 
 end OpcuaVerif.C02
